@@ -58,6 +58,9 @@ func (sc *scenario) fairEnv() {
 			name, ns := objStr(o, "metadata", "name"), objStr(o, "metadata", "namespace")
 			gen := objInt(o, "metadata", "generation")
 			st, _ := o["status"].(map[string]interface{})
+			if sc.lag && gen > 1 {
+				gen--
+			}
 			want := vs.M{"ready": true, "observedGeneration": gen, "conditions": []interface{}{vs.M{"type": "Ready", "status": "True"}}}
 			if st != nil && vs.MustJSON(st) == vs.MustJSON(want) {
 				continue
@@ -261,7 +264,17 @@ func rollingCfg(r *vs.Rand) scfg {
 	cfg.Children = []childSpec{c}
 	cfg.GenerateSelector = r.Chance(25)
 	cfg.Finalize = r.Chance(30)
+	if r.Chance(30) {
+		// custom revision-history paths; spec.extra is never set on these parents (an unrecorded earlier path)
+		cfg.FieldPaths = [][]string{{"spec.image"}, {"spec.extra", "spec.image"}}[r.Intn(2)]
+	}
 	return cfg
+}
+
+func (sc *scenario) setParentReplicas(n int) {
+	sc.w.sim.Mutate(parentGroup, sc.Cfg.parentResource(), nsOfKey(sc.key), "p1", func(o map[string]interface{}) {
+		o["spec"].(map[string]interface{})["replicas"] = int64(n)
+	})
 }
 
 func (sc *scenario) setParentImage(image string) {
@@ -376,9 +389,22 @@ func runRollout(r *vs.Rand, i int, seed uint64, out *vs.Out, crash bool) {
 	changeAt := k
 	sc.setParentImage("v2")
 	final := "v2"
+	finalReplicas := replicas
 	second := -1
-	if r.Chance(25) {
+	if r.Chance(50) {
 		second = changeAt + 1 + r.Intn(2*replicas+1)
+	}
+	scaleTo := -1
+	if r.Chance(35) {
+		// the spec change also changes the number of children (scale down or up by one)
+		scaleTo = replicas - 1 + 2*r.Intn(2)
+		if scaleTo < 1 {
+			scaleTo = 1
+		}
+	}
+	lagRound := -1
+	if r.Chance(40) {
+		lagRound = changeAt + 1 + r.Intn(replicas+1)
 	}
 	cutRound, cutK := -1, -1
 	if crash {
@@ -390,7 +416,14 @@ func runRollout(r *vs.Rand, i int, seed uint64, out *vs.Out, crash bool) {
 		if k == second {
 			sc.setParentImage("v3")
 			final = "v3"
+			if scaleTo > 0 {
+				sc.setParentReplicas(scaleTo)
+				finalReplicas = scaleTo
+			}
 		}
+		// one round in which the children's own controllers lag: the status checks still pass (stale conditions),
+		// but status.observedGeneration is behind metadata.generation
+		sc.lag = k == lagRound
 		if k == cutRound {
 			sc.w.sim.CutAfter = cutK
 		}
@@ -403,7 +436,7 @@ func runRollout(r *vs.Rand, i int, seed uint64, out *vs.Out, crash bool) {
 		rounds = append(rounds, ri)
 	}
 	out.Line(vs.M{"kind": "rounds", "mode": map[bool]string{false: "rollout", true: "crash"}[crash], "case": i, "seed": seed, "cfg": cfg, "rounds": rounds,
-		"replicas": replicas, "changeAt": changeAt, "secondChangeAt": second, "finalImage": final, "cutRound": cutRound, "cutK": cutK})
+		"replicas": finalReplicas, "changeAt": changeAt, "secondChangeAt": second, "finalImage": final, "cutRound": cutRound, "cutK": cutK})
 }
 
 var faultKinds = [][2]string{{"404", "NotFound"}, {"409", "Conflict"}, {"410", "Gone"}, {"422", "Invalid"}, {"500", "InternalError"}, {"504", "Timeout"}, {"409", "AlreadyExists"}}
@@ -560,7 +593,16 @@ func runInterleave(r *vs.Rand, i int, seed uint64, out *vs.Out) {
 			return
 		}
 		k := kids[r.Intn(len(kids))]
-		switch r.Intn(8) {
+		switch r.Intn(9) {
+		case 8: // the parent's spec is edited (generation moves on): the cached parent is one generation behind
+			s.Mutate(parentGroup, cfg.parentResource(), nsOfKey(sc.key), "p1", func(o map[string]interface{}) {
+				md := o["metadata"].(map[string]interface{})
+				g, _ := md["generation"].(int64)
+				md["generation"] = g + 1
+				if sp, ok := o["spec"].(map[string]interface{}); ok {
+					sp["note"] = "edited"
+				}
+			})
 		case 6: // another (non-controller) owner reference is added by someone else
 			s.Mutate(k.c.group(), k.c.Resource, k.ns, k.name, func(o map[string]interface{}) {
 				md := o["metadata"].(map[string]interface{})
